@@ -510,7 +510,7 @@ func C19(tier string) {
 		}
 		run.Sample(map[string]any{"type": d.name, "history": d.describe(deepest)})
 		// E1 over single sets
-		values := []string{"", "a", "b", "b c", `"q"`, "x  y", `x\" y`}
+		values := []string{"", "a", "b", "b c", `"q"`, "x  y", `x\" y`, "deleted", "dev"}
 		var names []string
 		if isDep {
 			names = []string{"Dev", "Opt", "Test", "Scope", "KnownAs", "Selector"}
@@ -518,7 +518,7 @@ func C19(tier string) {
 			names = []string{"Blocked", "Deleted", "Redirect", "Tags", "DerivedFrom"}
 		}
 		if quick {
-			values = []string{"", "a", "b c", `"q"`, "x  y", `x\" y`}
+			values = []string{"", "a", "b c", `"q"`, "x  y", `x\" y`, "deleted", "dev"}
 		}
 		sets := d.allSets(values, names)
 		vals := make([]attrVal, len(sets))
